@@ -1170,12 +1170,15 @@ func main() {
 	harness.Main(harness.Check{
 		ID:    "C43",
 		Level: "exploration",
-		Rule: "each case draws a final datastore state (up to 4 disjoint pools with none/ipip/vxlan x always/cross-subnet modes, 5 nodes incl. the local one with addresses in/out of the local subnet and tunnel addresses, " +
-			"up to 10 disjoint blocks incl. a /32 block, a block equal to a pool and a block in no pool, with affine, borrowed and ownerless allocations, up to 3 local workloads) and two independent histories " +
-			"(0-2 intermediate values or deletions per key incl. transient shared node addresses, random interleaving, random flush points) ending in it; non-trivial = the final state has a pool and at least one remote block or borrowed address; distinct by final state and history",
+		Rule: "each case is a TRUE datastore history of 60-100 (thorough 120-160) consistency-preserving mutations over 4 disjoint pools (none/ipip/vxlan x always/cross-subnet, LB-only), 5 nodes incl. the local one " +
+			"(addresses in/out of the local subnet, VXLAN/IPIP tunnel addresses in/out of blocks and pools), 10 disjoint blocks (a /32 block, a block equal to a pool, a block in no pool; affinity changes and releases; affine, borrowed, ownerless allocations) " +
+			"and 3 local workloads; IPAM records precede use and outlive it. Felix's view of it is built twice independently: per resource kind a snapshot at a random point followed by the remaining events in order, kinds interleaved at random, random flush points, optional resync; " +
+			"a third run delivers the final state alone. non-trivial = the final state has a pool and at least one remote block or borrowed address; distinct by the two delivered histories",
 		Assumptions: []string{
-			"IPv4 only; CalicoIPAM route source; node resources are expanded by the real FelixNodeUpdateProcessor",
-			"the datastore's own invariants hold in every state: pools disjoint, blocks disjoint; node addresses unique in the final state",
+			"IPv4 only; CalicoIPAM route source; node resources are expanded by the real FelixNodeUpdateProcessor; pools/blocks/endpoints are delivered as the v1 model types Felix's syncer produces",
+			"the datastore's own invariants hold in the true history: pools disjoint, blocks disjoint, node addresses unique at every instant, addresses in use are recorded in their IPAM block with the node attribute",
+			"one watch per resource kind: per-kind event order is preserved, cross-kind order is arbitrary",
+			"single goroutine; no race detector (the final binary is CGO-off because of part 2)",
 		},
 		Cases: func(tier string) int {
 			if tier == "thorough" {
